@@ -10,9 +10,10 @@ for d in seeded/*/; do
     C03-e) c=C05;; C19-e) c=C05;; C01-f) c=C10;;
     C01-g) c=C11;; C02-g) c=C11;; C03-g) c=C05;; C04-g) c=C03;; C06-g) c=C02;; C07-g) c=C05;; C08-g) c=C15;; C18-g) c=C14;; C19-g) c=C05;; C20-g) c=C17;; C18-f) c=C05;; C19-f) c=C17;;
     C06-h) c=C09;; C08-h) c=C09;; C18-h) c=C02;;
+    C07-k) c=C03;; C12-k) c=C11;; C13-k) c=C06;;
     C07-j) c=C03;; C13-j) c=C11;; C18-j) c=C15;;
     C05-i) c=C06;; C08-i) c=C09;; C12-i) c=C11;; C13-i) c=C11;; C17-i) c=C10;; C18-i) c=C05;;
-    C13-h|C15-h|C07-i) echo "$n skipped (C13-h: outside the stated domain; C15-h: neutralised by fix 659745f; C07-i: neutralised by fix 6630b36)"; continue;;
+    C13-h|C15-h|C07-i|C10-k|C08-k) echo "$n skipped (C13-h: outside the stated domain; C15-h, C07-i, C10-k: neutralised by fixes 659745f, 6630b36, 678fd65; C08-k: thorough tier only)"; continue;;
     *) c=$(echo $n | cut -c1-3);;
   esac
   tools/seed_rerun.py $n --checks $c --seeds $S 2>&1 | tail -1 | cut -c1-200
